@@ -623,7 +623,16 @@ fn process_use_statement(
 
         if *visibility == Visibility::Public {
             let exported_name = mangle_qualified_name(module_prefix, alias_name);
-            module_info.visibility_map.insert(exported_name, true);
+            // A re-export cannot make a private member public: the exported name is as visible
+            // as its target (a target that is not a known module member counts as public).
+            let target_is_public = module_info
+                .visibility_map
+                .get(&mangled)
+                .copied()
+                .unwrap_or(true);
+            module_info
+                .visibility_map
+                .insert(exported_name, target_is_public);
             module_info.use_alias_map.insert(exported_name, mangled);
         }
     }
